@@ -217,6 +217,16 @@ class RoundTrip(Sub):
             req(r.timezone_name == dt.timezone_name, "from_format with 'z' does not restore the zone name", got=r.timezone_name, expected=dt.timezone_name)
         # a string that does not match the format must be rejected
         bads = [s + "x", s[:-1] if zone_tok != "z" else s + "/", "x" + s]
+        # padding is not part of the format: blanks, tabs and line ends around the text do not match it
+        bads += [s + " ", " " + s, s + "\n", "\n" + s, s + "\t", s + "\r\n", s + "\n\n"]
+        # ... unless the format says so: literal whitespace at the outer ends of a format is part of it and survives the round trip
+        pad_l, pad_r = [("", ""), (" ", ""), ("", " "), ("[ ]", "[\t]"), ("\n", "\n"), ("  ", "[ ] ")][(dt.microsecond + dt.second) % 6]
+        if pad_l or pad_r:
+            fmt_p = pad_l + fmt + pad_r
+            s_p = dt.format(fmt_p, locale=loc)
+            rp = pendulum.from_format(s_p, fmt_p, locale=loc)
+            req(T.fields(rp) == T.fields(dt) and rp.utcoffset() == dt.utcoffset(), "from_format(dt.format(fmt), fmt) fails for a format with literal whitespace at its ends",
+                fmt=fmt_p, string=s_p, got=rp.isoformat(), expected=dt.isoformat())
         if zone_tok == "z":
             # strings whose zone part looks like a zone but is not one: a bare region / directory of the tz database, an unknown city
             zn = dt.timezone_name
